@@ -229,13 +229,24 @@ type itemSpec struct {
 	flag byte
 }
 
+// setKey: for single-key types the identifier is id; for multi-key types id enumerates the
+// cross product of {1,2} per key field (id 1 -> (1,1,..), 2 -> (..,1,2), 3 -> (..,2,1), ...), so that
+// identifiers exist whose first key is larger while a later key is smaller.
 func (sp *listSpec) setKey(item reflect.Value, id int) {
-	for _, ki := range sp.keys {
+	m := len(sp.keys)
+	for pos, ki := range sp.keys {
 		f := item.Field(ki)
 		p := reflect.New(f.Type().Elem())
 		switch sp.keyKind {
 		case "uint":
-			p.Elem().SetUint(uint64(id))
+			v := uint64(id)
+			if m > 1 {
+				v = uint64(((id-1)>>(m-1-pos))&1) + 1
+				if pos == 0 {
+					v += uint64((id - 1) >> m) // ids beyond the cross product stay distinct
+				}
+			}
+			p.Elem().SetUint(v)
 		case "string":
 			p.Elem().SetString(string(rune('a' + id - 1)))
 		}
